@@ -271,6 +271,14 @@ class RZILTransformer(Transformer):
                 raise ValueError(
                     "The return value of current sub-routines is currently only 64bit wide."
                 )
+            if (
+                not self.return_type.group & (VTGroup.EXTERNAL | VTGroup.VOID)
+                and src.value_type.signed
+                and src.value_type.bit_width < self.return_type.bit_width
+            ):
+                # Convert to the declared return type first. Otherwise, the sign
+                # of the value gets lost when it is widened to 64bit below.
+                src = self.init_a_cast(self.return_type, src)
             if src.value_type.bit_width != 64:
                 src = self.init_a_cast(ValueType(False, 64), src)
             return self.add_op(
